@@ -7,6 +7,8 @@ using namespace vf;
 
 struct Small { int key; short src; short pos; };                       // <= 2 * sizeof(size_t): copy-based loser tree
 struct Large { long long key; long long src; long long pos; char pad[24]; };   // pointer-based loser tree
+VF_DECOY_ORDER(Small, key)
+VF_DECOY_ORDER(Large, key)
 struct LessKey { template <class T> bool operator()(const T& a, const T& b) const { return a.key < b.key; } };
 struct GreaterMirror { template <class T> bool operator()(const T& a, const T& b) const { return a.key > b.key; } };   // keys stored mirrored
 
